@@ -2,7 +2,10 @@ package main
 
 import (
 	"encoding/json"
+	"io"
 )
+
+var errEOF = io.EOF
 
 type jsonRaw = json.RawMessage
 
@@ -37,3 +40,19 @@ func pick[T any](r *rng, xs []T) T { return xs[r.intn(len(xs))] }
 
 func ip(i int) *int       { return &i }
 func sp(s string) *string { return &s }
+
+func bytesReader(b []byte) *bytesRd { return &bytesRd{b: b} }
+
+type bytesRd struct {
+	b []byte
+	i int
+}
+
+func (r *bytesRd) Read(p []byte) (int, error) {
+	if r.i >= len(r.b) {
+		return 0, errEOF
+	}
+	n := copy(p, r.b[r.i:])
+	r.i += n
+	return n, nil
+}
